@@ -309,6 +309,10 @@ func c05(c *core.Ctx) {
 		} else {
 			c.Ok("order:acyclic", token.NoPos, "%d order edge(s), no 2-cycle", len(es))
 		}
+		// the two directions of a stream do not wait for each other: a mutex that one direction holds while it
+		// blocks on a channel (waiting for the peer) is never acquired by the other direction — the peer may be
+		// waiting for exactly that other operation (echo handler, sender and receiver goroutines)
+		c05Directions(c, ls)
 		for _, fn := range fns {
 			n := 0
 			core.Instrs(fn, func(in ssa.Instruction) {
@@ -388,8 +392,49 @@ func c05(c *core.Ctx) {
 	}
 
 	// ---------------------------------------------------------------- R7
-	if c.Rule("R7", "completion unblocks the peer: the server-done CancelFunc is called before the final blocking frame writes; the HTTP request pipe reader is closed on every path of the completion defer", 2) {
+	if c.Rule("R7", "completion unblocks the peer: the server-done CancelFunc is called before the final blocking frame writes; the HTTP request pipe reader is closed on every path of the completion defer; a receive side that declares the stream done cancels the context the reply reader's sends are guarded by", 3) {
 		c05DoneBeforeFinalWrites(c, fns)
+		// (c) a consumer that gives up on the message channel (declares the stream done from the receive side)
+		// cancels the context, so that the producer blocked in its ctx-guarded send is released
+		nGiveUp := 0
+		for _, nt := range streamTypes(p, "ClientStream", "RecvMsg") {
+			if pkgSuffixOf(nt) != "httpgrpc" {
+				continue
+			}
+			tn := nt.Obj().Name()
+			for _, f := range methodFamily(p, nt, "RecvMsg") {
+				core.Instrs(f, func(in ssa.Instruction) {
+					st, ok := in.(*ssa.Store)
+					if !ok {
+						return
+					}
+					base, fld, isF := core.FieldOf(st.Addr)
+					if b, isC := core.ConstBool(st.Val); !isF || !isC || !b || core.NamedOf(base.Type()) != tn {
+						return
+					}
+					nGiveUp++
+					key := core.FuncName(f) + ":" + fld + "=true:cancels-producer"
+					isCancel := func(x ssa.Instruction) bool {
+						call, isCall := x.(*ssa.Call)
+						if !isCall {
+							return false
+						}
+						_, _, okF := core.FieldOf(call.Call.Value)
+						return okF && core.TypeStr(call.Call.Value.Type()) == "context.CancelFunc"
+					}
+					ok2 := true
+					for _, r := range core.Returns(f) {
+						if core.Reachable(core.After(st), r) && !core.MustPass(core.After(st), r, isCancel) {
+							ok2 = false
+						}
+					}
+					c.Check(ok2, key, st.Pos(), "the receive side marks the stream done and cancels the call's context on every path: the reply reader blocked in its ctx-guarded send is released", "the receive side marks the stream done (it will not read the message channel again) without cancelling the call's context: the reply reader stays blocked in its send on the message channel (a goroutine and the HTTP connection leak)")
+				})
+			}
+		}
+		if nGiveUp == 0 {
+			c.Fail("httpgrpc:receive-side-give-up", token.NoPos, "ANCHOR-MISSING: no receive-side store of done=true found in the HTTP client stream")
+		}
 		// (b) the closer of the HTTP message channel closes the request pipe reader on all paths
 		m := 0
 		for _, cl := range closers {
@@ -1511,4 +1556,126 @@ func c05DoneBeforeFinalWrites(c *core.Ctx, fns []*ssa.Function) {
 	if n == 0 {
 		c.Fail("inprocgrpc:finish", token.NoPos, "ANCHOR-MISSING: no function found that both signals completion through a CancelFunc field and writes final frames")
 	}
+}
+
+// blocksOnChannel: fn (a module function) contains a blocking channel operation
+// (blocking select, send, receive), directly or through module callees (depth 3).
+func blocksOnChannel(fn *ssa.Function, depth int) bool {
+	if fn == nil || fn.Blocks == nil || depth > 3 {
+		return false
+	}
+	found := false
+	core.Instrs(fn, func(in ssa.Instruction) {
+		if found {
+			return
+		}
+		switch x := in.(type) {
+		case *ssa.Select:
+			if x.Blocking {
+				found = true
+			}
+		case *ssa.Send:
+			found = true
+		case *ssa.UnOp:
+			if x.Op == token.ARROW {
+				found = true
+			}
+		case *ssa.Call:
+			ci := core.InfoOf(&x.Call)
+			if ci.Static != nil && strings.HasPrefix(ci.Pkg, core.ModulePath) && ci.Static != fn && blocksOnChannel(ci.Static, depth+1) {
+				found = true
+			}
+		}
+	})
+	return found
+}
+
+func c05Directions(c *core.Ctx, ls *core.LockSets) {
+	p := c.P
+	type side struct {
+		name  string
+		roots []string
+	}
+	n := 0
+	for _, iface := range []string{"ClientStream", "ServerStream"} {
+		for _, nt := range streamTypes(p, iface, "SendMsg") {
+			tn := nt.Obj().Name()
+			sides := []side{{"send", []string{"SendMsg", "CloseSend"}}, {"receive", []string{"RecvMsg", "Header"}}}
+			held := map[string]map[string]token.Pos{}     // side → lock → a blocking point holding it
+			acquired := map[string]map[string]token.Pos{} // side → lock → acquisition
+			for _, sd := range sides {
+				held[sd.name], acquired[sd.name] = map[string]token.Pos{}, map[string]token.Pos{}
+				seen := map[*ssa.Function]bool{}
+				for _, r := range sd.roots {
+					for _, f := range methodFamily(p, nt, r) {
+						if seen[f] {
+							continue
+						}
+						seen[f] = true
+						core.Instrs(f, func(in ssa.Instruction) {
+							blocking := false
+							switch x := in.(type) {
+							case *ssa.Select:
+								blocking = x.Blocking
+							case *ssa.Send:
+								blocking = true
+							case *ssa.UnOp:
+								blocking = x.Op == token.ARROW
+							case *ssa.Call:
+								if key, acq, _, _ := core.LockOp(&x.Call); acq && strings.HasPrefix(key, tn+".") {
+									acquired[sd.name][key] = x.Pos()
+								}
+								ci := core.InfoOf(&x.Call)
+								if ci.Static != nil && ci.Static.Signature.Recv() == nil && strings.HasPrefix(ci.Pkg, core.ModulePath) {
+									blocking = blocksOnChannel(ci.Static, 0)
+								}
+							}
+							if blocking {
+								for k := range ls.HeldAt(in) {
+									k = strings.TrimSuffix(k, ":R")
+									if strings.HasPrefix(k, tn+".") {
+										if _, ok := held[sd.name][k]; !ok {
+											held[sd.name][k] = in.Pos()
+										}
+									}
+								}
+							}
+						})
+					}
+				}
+			}
+			for _, pr := range [][2]string{{"send", "receive"}, {"receive", "send"}} {
+				a, b := pr[0], pr[1]
+				if len(acquired[a]) == 0 && len(held[b]) == 0 {
+					continue
+				}
+				n++
+				key := typeKey(nt) + ":" + a + "-does-not-wait-for-" + b
+				bad := ""
+				var pos token.Pos
+				for k, at := range acquired[a] {
+					if _, ok := held[b][k]; ok {
+						bad, pos = k, at
+					}
+				}
+				if bad != "" {
+					c.Fail(key, pos, "the %s side acquires %s, which the %s side holds while it blocks on a channel waiting for the peer: a %s operation waits behind a pending %s operation, and the peer may be waiting for exactly that %s (echo handler; sender and receiver goroutines): deadlock", a, bad, b, a, b, a)
+				} else {
+					c.Ok(key, nt.Obj().Pos(), "locks acquired by the %s side %v are disjoint from those the %s side holds while blocked %v", a, keysOfPos(acquired[a]), b, keysOfPos(held[b]))
+				}
+			}
+		}
+	}
+	if n < 2 {
+		c.Fail("streams:direction-separation", token.NoPos, "ANCHOR-MISSING: expected >= 2 stream directions with locks to compare, found %d", n)
+	}
+}
+
+func keysOfPos(m map[string]token.Pos) []string {
+	var out []string
+	for k := range m {
+		out = append(out, k)
+	}
+	sort.Strings(out)
+	return out
 }
